@@ -1,4 +1,5 @@
 import MdsVerif.Proofs.StreeHist
+import MdsVerif.Drv.C01
 /-!
 # C01 — `stree.Tree` is a sorted set: results and contents match a reference set
 
@@ -353,6 +354,83 @@ theorem sortCompact_spec [TransCmp cmp] : SortCompact cmp (sortCompact cmp) := b
 theorem C01_history_driver [TransCmp cmp] (ops : List (Op α)) :
     run cmp (sortCompact cmp) [] ops = SortedSet.run cmp (sortCompact cmp) [] ops :=
   C01_history sortCompact_spec ops
+
+/-! ## `Len` after `New` from pairwise inequivalent keys -/
+
+/-- a list of pairwise inequivalent keys each of which has an equivalent in `l₂` is no longer than `l₂` -/
+theorem length_le_of_cover [TransCmp cmp] : ∀ (l₁ l₂ : List α),
+    l₁.Pairwise (fun a b => cmp a b ≠ .eq) → (∀ k ∈ l₁, ∃ z ∈ l₂, cmp k z = .eq) → l₁.length ≤ l₂.length := by
+  intro l₁
+  induction l₁ with
+  | nil => intro l₂ _ _; simp
+  | cons k ks ih =>
+    intro l₂ hp hc
+    obtain ⟨z, hz, hkz⟩ := hc k (by simp)
+    obtain ⟨a, b, e⟩ := List.append_of_mem hz
+    have hp' := List.pairwise_cons.mp hp
+    have := ih (a ++ b) hp'.2 (fun k' hk' => by
+      obtain ⟨z', hz', hkz'⟩ := hc k' (by simp [hk'])
+      refine ⟨z', ?_, hkz'⟩
+      rw [e] at hz'
+      simp only [List.mem_append, List.mem_cons] at hz' ⊢
+      rcases hz' with h | h | h
+      · exact Or.inl h
+      · subst h
+        exact absurd (TransCmp.eq_trans hkz (OrientedCmp.eq_symm hkz')) (hp'.1 k' hk')
+      · exact Or.inr h)
+    rw [e]; simp only [List.length_append, List.length_cons] at this ⊢; omega
+
+/-- **`New` stores every key when no two are equivalent**: for pairwise `cmp`-inequivalent `keys`
+(in particular distinct keys under an order in which only identical keys are equivalent),
+`New(β, cmp, keys…).Len() = len(keys)` -/
+theorem C01_new_len [TransCmp cmp] {srt : List α → List α} (hs : SortCompact cmp srt) {β : Int} {keys : List α}
+    {t : T α} (h : T.new srt β keys = some t) (hk : keys.Pairwise (fun a b => cmp a b ≠ .eq)) :
+    t.len = keys.length := by
+  obtain ⟨hw, hl, _⟩ := new_ok hs h
+  show t.size = _
+  rw [hw.2, size_eq_length, hl]
+  cases keys with
+  | nil => rfl
+  | cons k ks =>
+    show (srt (k :: ks)).length = _
+    apply Nat.le_antisymm
+    · apply length_le_of_cover (cmp := cmp)
+      · exact (hs.asc (k :: ks)).imp (fun h e => by rw [h] at e; cases e)
+      · exact fun x hx => ⟨x, hs.sub _ x hx, Std.ReflCmp.compare_self (cmp := cmp)⟩
+    · exact length_le_of_cover (cmp := cmp) _ _ hk (hs.cover (k :: ks))
+
+/-! ## the comparators the drivers run are total preorders
+
+Streams `C01`/`C02` run `Model.Stree.step` with `Drv.C01.S.cmp`: the natural order on `int` or the
+order by `a / 10` (Go's truncated division: equivalent, distinct keys).  Both satisfy `Std.TransCmp`,
+so `C01_history` (and `C02_depth`) apply to exactly the comparator and sort the driver executes. -/
+
+/-- a comparator pulled back along any function is a total preorder -/
+theorem transCmp_on {β : Type} (c : β → β → Ordering) [TransCmp c] (f : α → β) :
+    TransCmp (fun a b => c (f a) (f b)) where
+  eq_swap := OrientedCmp.eq_swap (cmp := c)
+  isLE_trans := TransCmp.isLE_trans (cmp := c)
+
+instance cmpNat_trans : TransCmp MdsVerif.Drv.C01.cmpNat :=
+  inferInstanceAs (TransCmp (fun a b : Int => compare a b))
+instance cmpDiv10_trans : TransCmp MdsVerif.Drv.C01.cmpDiv10 :=
+  transCmp_on (compare : Int → Int → Ordering) (fun a : Int => a.tdiv 10)
+instance drvCmp_trans (s : MdsVerif.Drv.C01.S) : TransCmp s.cmp := by
+  unfold MdsVerif.Drv.C01.S.cmp; split <;> infer_instance
+
+/-- **C01 for what the driver executes**: whatever the state of the driver stream (either comparator
+mode), the model run with the driver's comparator and the driver's sort+compact agrees with the
+reference on every history -/
+theorem C01_history_drv (s : MdsVerif.Drv.C01.S) (ops : List (Op Int)) :
+    run s.cmp (sortCompact s.cmp) [] ops = SortedSet.run s.cmp (sortCompact s.cmp) [] ops :=
+  C01_history_driver ops
+
+/-- non-vacuity: `cmpDiv10` has equivalent distinct keys (12 ~ 17, also across zero: -3 ~ 7 under Go's
+truncated division); `New` from the pairwise inequivalent keys 30, 12, 50 has `Len` 3 -/
+example : MdsVerif.Drv.C01.cmpDiv10 12 17 = .eq ∧ MdsVerif.Drv.C01.cmpDiv10 (-3) 7 = .eq ∧
+    MdsVerif.Drv.C01.cmpDiv10 12 30 = .lt := by decide
+example (t : T Int) (h : T.new (sortCompact MdsVerif.Drv.C01.cmpDiv10) 0 [30, 12, 50] = some t) : t.len = 3 :=
+  C01_new_len sortCompact_spec h (by decide)
 
 /-! ## non-vacuity
 
